@@ -34,8 +34,8 @@ MAX_WITNESSES_KEPT = 60
 MAX_SAMPLES = 8
 
 
-class CaseTimeout(Exception):
-    pass
+class CaseTimeout(BaseException):
+    """Raised by the per-case watchdog; a BaseException so that a monitor's `except Exception` cannot swallow it."""
 
 
 class Skip(Exception):
@@ -293,7 +293,10 @@ def merge(partials):
             o["calls"] += t["calls"]
             o["lines"].update(t["lines"])
         for k, v in p.get("notes", {}).items():
-            out["notes"].setdefault(k, v)
+            if isinstance(v, (int, float)) and not isinstance(v, bool) and isinstance(out["notes"].get(k, 0), (int, float)):
+                out["notes"][k] = out["notes"].get(k, 0) + v     # numeric notes add up over shards
+            else:
+                out["notes"].setdefault(k, v)
     return out
 
 
